@@ -24,9 +24,12 @@ class DataPointSampler(object):
 
         self._rng.shuffle(data_idxs)
 
+        outlier_node_name = tree.outlier_node_name
+
         for data_idx in data_idxs:
             old_node = tree_labels[data_idx]
-            if tree.get_data_len(old_node) > 1:
+            # Moving the last data point out of a clone would leave it empty; the outlier set may become empty
+            if tree.get_data_len(old_node) > 1 or (self.outliers and old_node == outlier_node_name):
                 tree = self._sample_tree(data_idx, tree, old_node)
                 tree_labels = tree.labels
 
